@@ -219,14 +219,17 @@ def run(rep, tier, seed):
     good = base64.b64encode(bytes(32)).decode()
     keys = [(good, True), (base64.b64encode(bytes(31)).decode(), False), (base64.b64encode(bytes(33)).decode(), False), ("", False),
             (good[:-1], False), (good[:-2] + "**", False), ("not base64 at all!", False), (good + "AAAA", False), (base64.b64encode(bytes(range(32))).decode(), True),
-            ("QRTIErOb/fcE9Ukd/5qA3RGYMn0Y+p06U58SCtOXvPc", False)]
+            ("QRTIErOb/fcE9Ukd/5qA3RGYMn0Y+p06U58SCtOXvPc", False),
+            # characters outside ASCII (pasted keys: non-breaking space, smart quotes, fraction slash, full-width letters)
+            (good + "\u00a0", False), ("\u201c" + good + "\u201d", False), (good.replace("A", "\uff21", 1), False),
+            (good[:10] + "\u2044" + good[11:], False), ("\u00e9" * 44, False), (good[:-1] + "\u2550", False)]
     n_keys = 40 if tier == "quick" else 2000
     for _ in range(n_keys):
         raw = rng.randbytes(rng.choice([0, 1, 16, 31, 32, 32, 32, 33, 48, 64]))
         k = base64.b64encode(raw).decode()
         if rng.random() < 0.3 and k:
             i = rng.randrange(len(k))
-            k = k[:i] + rng.choice("!*-_ \n=") + k[i + 1:]
+            k = k[:i] + rng.choice("!*-_ \n=\u00a0\u2044\u00fc") + k[i + 1:]
         try:
             dec = base64.b64decode(k, validate=False) if k else b""
             okk = None
